@@ -31,6 +31,7 @@ func main() {
 	res := map[string]string{}
 	genTick(*repo, *out, res)
 	genApiMux(*repo, *out, res)
+	genNazaConn(*repo, *out, res)
 	// selector rewrites (generated copies REPLACE the file in the build overlay; the only change is
 	// the named selector): the wall clock of pkg/logic and the dialers of the client sessions
 	rewriteSel(*repo, *out, res, "pkg/logic", "time", "Now", "verifNow", true)
@@ -53,6 +54,105 @@ func main() {
 	// a push goroutine registers its session after Start() returned; the environment waits for that
 	instrumentFunc(*repo, *out, res, "pkg/logic/group__relay_push.go", "AddRtmpPushSession", "defer verifPushAdded(group)")
 	json.NewEncoder(os.Stdout).Encode(res)
+}
+
+// genNazaConn: a copy of naza's pkg/connection/connection.go (the version /repo/go.mod pins) in which
+// every enqueue on the asynchronous write channel is followed by verifPend(c.Conn, 1) and every item
+// the write loop has handled by verifPend(c.Conn, -1): the in-memory connections of the harness then
+// know how many queued writes are outstanding, so that quiescence is exact with write queues enabled.
+func genNazaConn(repo, out string, res map[string]string) {
+	gm, err := os.ReadFile(filepath.Join(repo, "go.mod"))
+	if err != nil {
+		die("%v", err)
+	}
+	ver := ""
+	for _, l := range strings.Split(string(gm), "\n") {
+		f := strings.Fields(l)
+		for i := range f {
+			if f[i] == "github.com/q191201771/naza" && i+1 < len(f) {
+				ver = f[i+1]
+			}
+		}
+	}
+	if ver == "" {
+		die("naza version not found in go.mod")
+	}
+	cache := os.Getenv("GOMODCACHE")
+	if cache == "" {
+		home, _ := os.UserHomeDir()
+		gp := os.Getenv("GOPATH")
+		if gp == "" {
+			gp = filepath.Join(home, "go")
+		}
+		cache = filepath.Join(gp, "pkg", "mod")
+	}
+	dir := filepath.Join(cache, "github.com", "q191201771", "naza@"+ver, "pkg", "connection")
+	src := filepath.Join(dir, "connection.go")
+	b, err := os.ReadFile(src)
+	if err != nil {
+		die("%v", err)
+	}
+	fset := token.NewFileSet()
+	af, err := parser.ParseFile(fset, src, b, parser.ParseComments)
+	if err != nil {
+		die("%v", err)
+	}
+	type ins struct {
+		at   int
+		text string
+	}
+	var inss []ins
+	isWChan := func(e ast.Expr) bool {
+		se, ok := e.(*ast.SelectorExpr)
+		return ok && se.Sel.Name == "wChan"
+	}
+	inClause := map[ast.Node]bool{}
+	nPlus, nMinus := 0, 0
+	ast.Inspect(af, func(n ast.Node) bool {
+		cc, ok := n.(*ast.CommClause)
+		if !ok || cc.Comm == nil {
+			return true
+		}
+		if ss, ok := cc.Comm.(*ast.SendStmt); ok && isWChan(ss.Chan) {
+			inClause[ss] = true
+			inss = append(inss, ins{fset.Position(cc.Colon).Offset + 1, "\nverifPend(c.Conn, 1)\n"})
+			nPlus++
+		}
+		if as, ok := cc.Comm.(*ast.AssignStmt); ok && len(as.Rhs) == 1 {
+			if ue, ok := as.Rhs[0].(*ast.UnaryExpr); ok && ue.Op == token.ARROW && isWChan(ue.X) && len(cc.Body) > 0 {
+				inss = append(inss, ins{fset.Position(cc.Body[len(cc.Body)-1].End()).Offset, "\nverifPend(c.Conn, -1)\n"})
+				nMinus++
+			}
+		}
+		return true
+	})
+	ast.Inspect(af, func(n ast.Node) bool {
+		if ss, ok := n.(*ast.SendStmt); ok && isWChan(ss.Chan) && !inClause[ss] {
+			inss = append(inss, ins{fset.Position(ss.End()).Offset, "\nverifPend(c.Conn, 1)\n"})
+			nPlus++
+		}
+		return true
+	})
+	if nPlus < 2 || nMinus != 1 {
+		die("pattern not found: sends on / receive from wChan in %s (found %d / %d)", src, nPlus, nMinus)
+	}
+	sort.Slice(inss, func(i, j int) bool { return inss[i].at < inss[j].at })
+	var outb []byte
+	prev := 0
+	for _, in := range inss {
+		outb = append(outb, b[prev:in.at]...)
+		outb = append(outb, in.text...)
+		prev = in.at
+	}
+	outb = append(outb, b[prev:]...)
+	// (a file added to a module-cache package by the overlay is not seen by the go command's module
+	// index, so the helper lives in the generated copy itself)
+	outb = append(outb, []byte("\n// verifPend tells an instrumented net.Conn how many asynchronous writes are outstanding.\nfunc verifPend(c net.Conn, d int) {\n\tif p, ok := c.(interface{ VerifPending(int) }); ok {\n\t\tp.VerifPending(d)\n\t}\n}\n")...)
+	p := filepath.Join(out, "gen_naza_connection.go")
+	if err := os.WriteFile(p, outb, 0o644); err != nil {
+		die("%v", err)
+	}
+	res[src] = p
 }
 
 // genApiMux: the statements of (*HttpApiServer).RunLoop up to (not including) `var srv http.Server`
